@@ -29,6 +29,7 @@ class Suite:
     max_nodes: int = 99
     reduce: bool = True
     require_tag: t.Optional[str] = None          # only cases whose reference evaluation carries this tag
+    unnamed_switches: bool = False               # SwitchCase marks without name= (uuid-suffixed synthetic ids)
 
 
 TERM = {'deadlock', 'livelock'}
@@ -107,12 +108,12 @@ def suites(prop: str, tier: str) -> t.List[Suite]:
                   collab={'mode': 'gated'}, symptoms=sym, plans='ok', max_nodes=6 if q else 5, limit=20000),
         ]
     if prop == 'C05':
-        sym = ERR | VERDICT
+        sym = ERR | VERDICT | TERM
         return [
-            Suite('d0-async', GEN + ['corpus'], ['outcome'], 0, ['async'], symptoms=sym, plans='pairs' if q else 'std'),
+            Suite('d0-async', GEN + ['corpus'], ['outcome', 'term'], 0, ['async'], symptoms=sym, plans='pairs' if q else 'std'),
         ] + ([] if q else [Suite('pairs', ['plain', 'oneof', 'switch', 'rec', 'mix', 'corpus'], ['outcome'], 0, ['async'], symptoms=sym, plans='pairs', max_nodes=5)]) + [
-            Suite('d0-thread', GEN + ['corpus'], ['outcome'], 0, ['thread'], symptoms=sym, plans='std'),
-            Suite('composed', COMPOSED, ['outcome'], 0, ['async'] if q else ['async', 'thread'], symptoms=sym, plans='std' if q else 'pairs'),
+            Suite('d0-thread', GEN + ['corpus'], ['outcome', 'term'], 0, ['thread'], symptoms=sym, plans='std'),
+            Suite('composed', COMPOSED, ['outcome', 'term'], 0, ['async'] if q else ['async', 'thread'], symptoms=sym, plans='std' if q else 'pairs'),
             Suite('d1', ['corpus', 'oneof'] + ([] if q else ['plain', 'switch', 'rec', 'mix']), ['outcome'], 1, ['thread'], symptoms=sym,
                   plans='pairs', max_nodes=5 if q else 5),
         ] + ([] if q else [Suite('d2', ['corpus', 'oneof', 'plain'], ['outcome'], 2, ['thread'], symptoms=sym, plans='pairs', max_nodes=5, limit=20000)])
@@ -123,6 +124,7 @@ def suites(prop: str, tier: str) -> t.List[Suite]:
             Suite('d0-async', ['switch', 'mix', 'corpus'], mons, 0, ['async'], symptoms=sym),
             Suite('composed', ['switchx'], mons, 0, ['async'] if q else ['async', 'thread'], symptoms=sym),
             Suite('d0-thread', ['switch', 'corpus'], mons, 0, ['thread'], symptoms=sym),
+            Suite('unnamed', ['switch', 'corpus'] + ([] if q else ['switchx']), mons, 0, ['async'], symptoms=sym, unnamed_switches=True),
             Suite('d1', ['corpus', 'switch'], mons, 1, ['thread'], symptoms=sym, max_nodes=4 if q else 5),
         ]
     if prop == 'C10':
@@ -173,6 +175,11 @@ def suites(prop: str, tier: str) -> t.List[Suite]:
         ] + ([] if q else [Suite('composed', COMPOSED, ['events'], 0, ['async'], symptoms=None)]) + [
             Suite('gated', ['corpus', 'plain'] + ([] if q else ['oneof', 'switch', 'rec']), ['events'], 0, ['async'],
                   collab={'mode': 'gated', 'two_managers': not q}, symptoms=None, max_nodes=4, limit=20000),
+            # two managers, only on_node_complete of the first one suspends: the second manager must still see every
+            # on_node_complete before a consumer of that node starts
+            Suite('gated-complete-two-managers', ['corpus', 'plain'] + ([] if q else ['oneof', 'switch', 'rec']), ['events'], 0, ['async'],
+                  collab={'mode': 'gated', 'two_managers': True, 'gate_kinds': ['node_complete'], 'gate_mgrs': [0]}, symptoms=None,
+                  max_nodes=5, plans='ok', limit=20000),
             Suite('d1', ['corpus'] + ([] if q else ['plain', 'rec', 'oneof']), ['events'], 1, ['thread'], collab={'mode': 'yield'},
                   symptoms=None, max_nodes=5),
         ]
@@ -224,6 +231,12 @@ def work(arg: tuple) -> dict:
     import time as _t
     _t0 = _t.time()
     out = dict(cases=0, executions=0, transitions=0, states=0, capped=0, viol=[], internal=[], outcomes=0, sample=None, cpu=0.0, stock=0)
+    if suite.unnamed_switches:
+        spec = json.loads(json.dumps(spec))
+        for nd in spec['nodes'].values():
+            for prm in nd['params']:
+                if prm[1] == 'switch':
+                    prm[2]['name'] = None
     for mode in suite.modes:
         sp = EN.with_mode(spec, mode) if mode != 'async' else spec
         for plan in case_plans(sp, suite, fam)[chunk[0]::chunk[1]]:
